@@ -600,6 +600,8 @@ class Interp:
             raise Unsupported('substring test on symbolic string')
         if isinstance(cont, SList):
             return self.models.slist_contains(self, cont, x)
+        if isinstance(cont, self.models.SDict):
+            return cont.contains(self, x)
         if hasattr(cont, 'contains'):
             return cont.contains(self, x)
         raise Unsupported(f'in on {type(cont).__name__}')
